@@ -24,7 +24,8 @@ def main():
     _, cmd, prop, slug = sys.argv[:4]
     allchecks = '--all' in sys.argv
     summary = sys.argv[sys.argv.index('--summary') + 1] if '--summary' in sys.argv else ''
-    wt = '/tmp/seed/wt_%s' % prop
+    base = sys.argv[sys.argv.index('--base') + 1] if '--base' in sys.argv else '/tmp/seed'
+    wt = '%s/wt_%s' % (base, prop)
     out = os.path.join(wt, 'seeded_out')
     patch = os.path.join(out, 'patch.diff')
     assert os.path.exists(patch), patch
